@@ -1898,15 +1898,17 @@ double bufr_cvt_i64_to_dval(BufrValueEncoding *be, int64_t ival)
    missing = bufr_missing_ivalue( be->nbits );
    if ((ival < 0)||(ival == missing)) return bufr_get_max_double();
 
-   val_pow = pow(10.0,(double)be->scale);
-
-   if ((be->reference < 0) && (ival < (-be->reference)))
+/*
+ * 10^scale is not representable for a negative scale: multiply by the exact 10^-scale instead of dividing by it
+ */
+   if (be->scale < 0)
       {
-      int64_t val = (int64_t)(ival + be->reference);
-      fval = (double)val / val_pow;
+      val_pow = pow(10.0,(double)(-be->scale));
+      fval = (double)(ival + be->reference) * val_pow ;
       }
    else
       {
+      val_pow = pow(10.0,(double)be->scale);
       fval = (double)(ival + be->reference) / val_pow ;
       }
 
@@ -1994,8 +1996,20 @@ uint64_t bufr_cvt_dval_to_i64(int code, BufrValueEncoding *be, double fval)
  */
    maxval = (1ULL << be->nbits) - 1;
    ival_pow = val_pow = pow(10.0,(double)be->scale);
-   fmin = be->reference / val_pow;
-   fmax = ((int64_t)(maxval-1) + be->reference) / val_pow;
+   if (be->scale < 0)
+      {
+/*
+ * 10^scale is not representable for a negative scale: use the exact 10^-scale
+ */
+      double inv_pow = pow(10.0,(double)(-be->scale));
+      fmin = be->reference * inv_pow;
+      fmax = ((int64_t)(maxval-1) + be->reference) * inv_pow;
+      }
+   else
+      {
+      fmin = be->reference / val_pow;
+      fmax = ((int64_t)(maxval-1) + be->reference) / val_pow;
+      }
 
    if (fval > fmax)
       {
@@ -2046,7 +2060,7 @@ uint64_t bufr_cvt_dval_to_i64(int code, BufrValueEncoding *be, double fval)
       }
    else
       {
-      int64_t sval = round(fval * val_pow);
+      int64_t sval = round(fval / pow(10.0,(double)(-be->scale)));
       ival = sval - be->reference;
       if (ival >= maxval) overflow = 1;
       }
